@@ -115,6 +115,23 @@ def real_hash_key(pk_text):
 
 
 def eval_key_case(case):
+    """a case handler must not die on an exception escaping from the code under test (e.g. public_key() raising for
+    a key whose public point has the wrong length): that is a failing input of the property, not a harness error"""
+    import traceback
+    from harness import common
+    try:
+        return _eval_key_case(case)
+    except Exception as e:
+        tb = traceback.format_exc()
+        if os.path.join(os.path.realpath(common.REPO), 'src') not in tb and os.path.join(common.REPO, 'src') not in tb:
+            raise
+        where = [l.strip() for l in tb.split('\n') if 'src/pytezos' in l][-1:]
+        base = {'curve': case['curve'], 'secret': case['secret'].hex()}
+        return [], [(f"key-api-raises:{case['curve']}", f"an import/export/derivation call raised {type(e).__name__}: {str(e)[:120]} for {case['curve']} secret "
+                     f"{case['secret'].hex()} ({where[0] if where else '?'})", base)]
+
+
+def _eval_key_case(case):
     from harness import common
     common.use_repo()
     import pysodium
@@ -452,6 +469,14 @@ def run(ctx):
             cases.append((eval_key_case, {'curve': curve, 'secret': bytes(range(1, 33)) if i == 0 else random_secret(rng, curve), 'seed': rng.getrandbits(48),
                                           'passphrases': npw, 'pw': [random_passphrase(rng) for _ in range(npw)],
                                           'salts': [None if j == 0 else bytes(rng.getrandbits(8) for _ in range(8)) for j in range(npw)]}))
+    # boundary keys: secret exponents whose public point has an X coordinate with a leading zero byte (1 key in 256;
+    # found by scanning small exponents with the independent derivation) — fixed-width encodings of X, of the secret
+    # (30 leading zero bytes here) and of everything derived from them must not drop those bytes
+    for curve, exps in (('sp', (153, 246, 1158)), ('p2', (379, 552, 751))):
+        for e in exps if quick else exps + tuple(rng.randrange(1, 1 << 16) for _ in range(20)):
+            cases.append((eval_key_case, {'curve': curve, 'secret': e.to_bytes(32, 'big'), 'seed': rng.getrandbits(48), 'passphrases': 1,
+                                          'pw': [random_passphrase(rng)], 'salts': [None]}))
+            ctx.count('key_boundary', f'{curve}:short-X' if e in exps else f'{curve}:small-exponent')
     # ---------------- mnemonics
     from mnemonic import Mnemonic
     m = Mnemonic('english')
